@@ -299,6 +299,20 @@ def run(ctx):
             evals += 1
             if x.exit != 0:
                 fails.append({"what": f"verify on the untouched tree (one file of {len(mtree['big.bin'])} bytes) sealed with {fmts}: exit {x.exit}", "replay": {"entry": "verify", "fmts": fmts, "size": len(mtree["big.bin"]), "seed": ctx.seed}})
+        # a file whose size as reported by stat says nothing about its content (kernel-provided files report 0): the
+        # content is what read() returns until end of file
+        pv = "/proc/version"
+        if os.path.isfile(pv) and os.path.getsize(pv) == 0:
+            try:
+                pvb = open(pv, "rb").read()
+            except OSError:
+                pvb = b""
+            if pvb:
+                for f in CLI_FORMATS:
+                    x = rt.run("hash", [pv, "-h", f])
+                    evals += 1
+                    if f"= {rt.digest(f, pvb)}" not in x.out:
+                        fails.append({"what": f"`hash -h {f} {pv}` ({len(pvb)} bytes, stat size 0) prints {x.out.strip()[-100:]!r}, standard digest {rt.digest(f, pvb)}", "replay": {"entry": "hash", "fmt": f, "file": pv}})
         for f in CLI_FORMATS:
             for nm in ("big.bin", "sparse_tail.bin", "sparse_all.bin"):
                 x = rt.run("hash", [os.path.join(r2, nm), "-h", f])
